@@ -357,8 +357,9 @@ class Ctx:
     # ------------------------------------------------------------------ accounting
     def count(self, stream: str, n_eval: int, keys, validated: int | None = None, **extra):
         """Record that a stream ran n_eval cases; keys = iterable of hashable canonical non-trivial cases."""
-        self.evaluations += n_eval
         ks = {hashlib.sha1(repr(k).encode()).hexdigest()[:16] for k in keys}
+        n_eval = max(n_eval, len(ks))        # a module may pass sub-case keys: every distinct key was evaluated
+        self.evaluations += n_eval
         self.distinct |= {stream + ':' + k for k in ks}
         self.traces_validated += n_eval if validated is None else validated
         st = self.cov['streams'].setdefault(stream, {'evaluations': 0, 'distinct_nontrivial': 0})
